@@ -5,13 +5,6 @@ From Verif.C18 Require Import Gen_Quote Model ProofsBase ProofsStr ProofsBytes.
 Import ListNotations.
 Open Scope N_scope.
 
-Lemma contains_cons : forall p c s, contains p (c :: s) = prefix p (c :: s) || contains p s.
-Proof.
-  intros p c s. unfold contains. rewrite find_sub_unfold.
-  destruct (prefix p (c :: s)); [reflexivity|]. cbn [orb].
-  destruct (find_sub p s) as [[b a]|]; reflexivity.
-Qed.
-
 Section Ident.
 Variable U : uni.
 
